@@ -503,6 +503,66 @@ func streamIcpt(c *Ctx) {
 	for _, side := range sides {
 		for _, kind := range kinds {
 			icptAliasProbe(c, side, kind)
+			for _, n := range []int{1, 2, 3} {
+				icptScratchSliceProbe(c, side, kind, n)
+			}
+		}
+	}
+}
+
+// icptScratchSliceProbe: the chain is fixed at construction. A caller that builds several
+// clients / handlers from one scratch slice and overwrites its elements afterwards does not
+// change the chain of what it built earlier - for unary and for streaming calls alike.
+func icptScratchSliceProbe(c *Ctx, side, kind string, groupLen int) {
+	log := &eventLog{}
+	scratch := make([]connect.Interceptor, groupLen)
+	want := ""
+	for i := range scratch {
+		scratch[i] = &logIcpt{id: i + 1, log: log}
+		if i > 0 {
+			want += ","
+		}
+		want += strconv.Itoa(i + 1)
+	}
+	var h http.Handler
+	var cl *connect.Client[emptypb.Empty, emptypb.Empty]
+	mk := func(hopts []connect.HandlerOption) http.Handler {
+		if kind == "unary" {
+			return connect.NewUnaryHandler("/s/m", func(context.Context, *connect.Request[emptypb.Empty]) (*connect.Response[emptypb.Empty], error) {
+				return connect.NewResponse(&emptypb.Empty{}), nil
+			}, hopts...)
+		}
+		return connect.NewClientStreamHandler("/s/m", func(ctx context.Context, s *connect.ClientStream[emptypb.Empty]) (*connect.Response[emptypb.Empty], error) {
+			return connect.NewResponse(&emptypb.Empty{}), nil
+		}, hopts...)
+	}
+	if side == "client" {
+		h = mk(nil)
+		cl = connect.NewClient[emptypb.Empty, emptypb.Empty](&inprocClient{h: h}, "http://h/s/m", connect.WithClientOptions(connect.WithInterceptors(scratch...)))
+	} else {
+		h = mk([]connect.HandlerOption{connect.WithInterceptors(scratch...)})
+		cl = connect.NewClient[emptypb.Empty, emptypb.Empty](&inprocClient{h: h}, "http://h/s/m")
+	}
+	// the caller goes on to its next construction with the same slice
+	for i := range scratch {
+		scratch[i] = &logIcpt{id: 7 + i, log: log}
+	}
+	for round := 0; round < 2; round++ {
+		log.reset()
+		var err error
+		if kind == "unary" {
+			_, err = cl.CallUnary(context.Background(), connect.NewRequest(&emptypb.Empty{}))
+		} else {
+			s := cl.CallClientStream(context.Background())
+			_, err = s.CloseAndReceive()
+		}
+		got := idsOf(log.events, "in")
+		if err != nil && !errors.Is(err, context.Canceled) {
+			got = "call-failed: " + err.Error()
+		}
+		c.Count("scratch-slice-probe")
+		if got != want {
+			c.Fail("icpt-alias", fmt.Sprintf("%s %s call #%d after the caller overwrote the %d-element slice it had passed to WithInterceptors", side, kind, round+1, groupLen), got, "the chain is what was declared at construction: want "+want)
 		}
 	}
 }
